@@ -57,19 +57,35 @@ def run_shard(spec, tier, seed):
     def is_vec_array(x):
         return type(x) is cls
 
-    for shape, field_order in (((6,), "canonical"), ((2, 3), "canonical"), ((2, 3, 2), "canonical"), ((6,), "reversed"), ((2, 3), "rotated")):
+    forms = (((6,), "canonical"), ((2, 3), "canonical"), ((2, 3, 2), "canonical"), ((6,), "reversed"), ((2, 3), "rotated"),
+             # other legitimate array forms: a non-coordinate field carried along, other column dtypes, other memory layouts,
+             # empty arrays
+             ((6,), "extra-field"), ((2, 3), "float32"), ((6,), "int64"), ((2, 3), "mixed-dtypes"), ((2, 3), "fortran"),
+             ((6,), "big-endian"), ((2, 3, 2), "strided"), ((0,), "empty"), ((2, 0), "empty"))
+    for shape, field_order in forms:
         n = int(numpy.prod(shape))
         rows = []
-        while len(rows) < n:
+        integer = field_order == "int64"
+        while len(rows) < max(n, 3):
             rv, _ = gen.vec4(r, core=True, forward=True) if dim == 4 else gen.vec(r, dim, core=True)
             try:
-                rows.append(LVec(rv, system, mom).f64()[0])
+                row = LVec(rv, system, mom).f64()[0]
             except R.NotRepresentable:
-                pass
-        rows[0] = tuple(-0.0 if i == 0 else c for i, c in enumerate(rows[0]))
+                continue
+            if integer:
+                row = tuple(float(max(1, min(3, round(c)))) if nm in ("theta",) else float(max(-3, min(3, round(c)))) if nm in ("phi", "eta")
+                            else float(round(c * 8) or 1) for nm, c in zip(names, row))
+            elif field_order in ("float32", "mixed-dtypes"):
+                row = tuple(float(numpy.float32(c)) for c in row)
+            rows.append(row)
+        obj_rows = rows
+        rows = rows[:n]
+        if n and not integer:
+            rows[0] = tuple(-0.0 if i == 0 else c for i, c in enumerate(rows[0]))
+        extra_names = ()
         if field_order == "canonical":
             arr = B.mk_numpy_cls(system, rows, mom, shape)
-        else:
+        elif field_order in ("reversed", "rotated"):
             # the same records with the fields laid out in another order (e.g. ROOT-style E, px, py, pz): everything
             # is addressed by name, so nothing may depend on the position of a field
             onames = list(reversed(names)) if field_order == "reversed" else list(names[1:]) + [names[0]]
@@ -77,6 +93,29 @@ def run_shard(spec, tier, seed):
             for i, nm in enumerate(names):
                 raw[nm] = [row[i] for row in rows]
             arr = raw.reshape(shape).view(cls)
+        else:
+            dts = {"float32": [numpy.float32] * dim, "int64": [numpy.int64] * dim,
+                   "mixed-dtypes": [(numpy.float32, numpy.float64, numpy.int64 if False else numpy.float32, numpy.float64)[i] for i in range(dim)],
+                   "big-endian": [">f8"] * dim}.get(field_order, [numpy.float64] * dim)
+            fields = [(nm, dt) for nm, dt in zip(names, dts)]
+            if field_order == "extra-field":
+                fields = [fields[0], ("charge", numpy.int64)] + fields[1:] + [("weight", numpy.float32)]
+                extra_names = ("charge", "weight")
+            raw = numpy.zeros(n, dtype=fields)
+            for i, nm in enumerate(names):
+                raw[nm] = [row[i] for row in rows]
+            if extra_names:
+                raw["charge"] = numpy.arange(n) % 3 - 1
+                raw["weight"] = numpy.arange(n) * 0.5
+            raw = raw.reshape(shape)
+            if field_order == "fortran":
+                raw = numpy.asfortranarray(raw)
+            elif field_order == "strided":
+                wide = numpy.zeros(shape + (2,), dtype=raw.dtype)
+                wide[..., 0] = raw
+                wide[..., 1] = numpy.array(tuple(-9.75 for _ in names), dtype=raw.dtype)
+                raw = wide[..., 0]
+            arr = raw.view(cls)
         plain = numpy.asarray(arr).view(numpy.ndarray).copy()
         key = f"{sn}|{fl}|{shape}|{field_order}"
 
@@ -101,6 +140,34 @@ def run_shard(spec, tier, seed):
             o2 = arr[nidx if len(nidx) > 1 else nidx[0]]
             if B.obj_stored(o2) != B.obj_stored(o):
                 V("negative-index-differs", index=list(nidx))
+            # other spellings of the same integer index: NumPy integer scalars, 0-d integer arrays, a chain of indices
+            alts = {"numpy.int64": tuple(numpy.int64(i) for i in idx), "numpy.uint8": tuple(numpy.uint8(i) for i in idx),
+                    "0-d-array": tuple(numpy.array(i) for i in idx)}
+            for aname, aidx in alts.items():
+                try:
+                    o3 = arr[aidx if len(aidx) > 1 else aidx[0]]
+                    if type(o3) is not ocls or B.obj_stored(o3) != B.obj_stored(o):
+                        V(f"integer-index-spelling-differs spelling={aname}", index=list(idx), got=type(o3).__name__)
+                except Exception as e:
+                    V(f"integer-index-spelling-raises spelling={aname}", index=list(idx), exc=f"{type(e).__name__}: {e}"[:200])
+            if len(idx) > 1:
+                try:
+                    o4 = arr
+                    for i in idx:
+                        o4 = o4[i]
+                    if type(o4) is not ocls or B.obj_stored(o4) != B.obj_stored(o):
+                        V("chained-integer-index-differs", index=list(idx), got=type(o4).__name__)
+                except Exception as e:
+                    V("chained-integer-index-raises", index=list(idx), exc=f"{type(e).__name__}: {e}"[:200])
+        if len(shape) == 1 and n:
+            # iterating a 1-D array visits the same vector objects as indexing it
+            try:
+                its = list(arr)
+                if len(its) != n or any(type(o) is not ocls or B.obj_stored(o) != B.obj_stored(arr[i]) for i, o in enumerate(its)):
+                    V("iteration-differs-from-integer-indexing", got=[type(o).__name__ for o in its][:3])
+                res.cell("iteration", key)
+            except Exception as e:
+                V("iteration-raises", exc=f"{type(e).__name__}: {e}"[:200])
         res.cell("integer-index", key)
 
         # ---------------- index expressions that return arrays
@@ -117,8 +184,16 @@ def run_shard(spec, tier, seed):
             res.evaluations += 1
             ixx = ix if len(ix) > 1 else ix[0]
             try:
-                got = arr[ixx]
                 want = plain[ixx]
+            except Exception:
+                try:
+                    arr[ixx]
+                    V(f"index-expression-accepted-where-ndarray-raises expr={ename}")
+                except Exception:
+                    res.cell("index-raises-like-ndarray:" + ename, key)
+                continue
+            try:
+                got = arr[ixx]
             except Exception as e:
                 V(f"index-expression-raises expr={ename}", exc=f"{type(e).__name__}: {e}"[:200])
                 continue
@@ -177,9 +252,18 @@ def run_shard(spec, tier, seed):
                     continue
                 if type(col) is not numpy.ndarray:
                     V(f"field-index-not-a-plain-column name={sp}", got=type(col).__name__)
-                elif col.shape != shape or col.tobytes() != plain[nm].tobytes() or not numpy.shares_memory(col, arr):
+                elif col.shape != shape or col.dtype != plain.dtype[nm] or col.tobytes() != plain[nm].tobytes() or (n and not numpy.shares_memory(col, arr)):
                     V(f"field-index-is-not-the-stored-column name={sp}")
                 res.cell("field:" + sp, key)
+        for nm in extra_names:
+            res.evaluations += 1
+            try:
+                col = arr[nm]
+                if type(col) is not numpy.ndarray or col.dtype != plain.dtype[nm] or col.tobytes() != plain[nm].tobytes():
+                    V(f"extra-field-index-is-not-the-stored-column name={nm}", got=type(col).__name__)
+                res.cell("field:extra", key)
+            except Exception as e:
+                V(f"extra-field-index-raises name={nm}", exc=f"{type(e).__name__}: {e}"[:200])
         if not mom:
             for sp in ("px", "pt", "E", "mass"):
                 try:
@@ -224,8 +308,8 @@ def run_shard(spec, tier, seed):
                 rz = got.rotateZ(0.25)
                 if type(rz) is not cls and not isinstance(rz, cls.__mro__[1]):
                     V(f"round-tripped-array-result-class action={tname}", got=type(rz).__name__)
-                e0 = got[tuple(0 for _ in g.shape)]
-                if type(e0) is not ocls:
+                e0 = got[tuple(0 for _ in g.shape)] if g.size else None
+                if g.size and type(e0) is not ocls:
                     V(f"round-tripped-array-element-class action={tname}", got=type(e0).__name__)
                 if mom and "x" in names:
                     _ = got["px"]
@@ -235,7 +319,7 @@ def run_shard(spec, tier, seed):
 
     # ---------------- the array form of an object vector
     for rep in range(3):
-        row = rows[rep]
+        row = obj_rows[rep]
         o = B.mk_obj(system, row, mom)
         for fname, f in (("__array__", lambda: o.__array__()), ("asanyarray", lambda: numpy.asanyarray(o))):
             res.evaluations += 1
@@ -251,7 +335,7 @@ def run_shard(spec, tier, seed):
             if g.dtype.names != names or g.size != 1 or not all(B.same_bits(float(g[nm].reshape(-1)[0]), float(c)) for nm, c in zip(names, row)):
                 V(f"object-array-form-wrong-content form={fname}", names=list(g.dtype.names or ()), shape=list(g.shape))
             res.cell("object-array-form:" + fname, sn, fl)
-    res.sample({"system": sn, "flavor": fl, "row0": [repr(x) for x in rows[0]]})
+    res.sample({"system": sn, "flavor": fl, "row0": [repr(x) for x in obj_rows[0]], "forms": [f"{sh}:{fo}" for sh, fo in forms]})
     return res
 
 
